@@ -754,6 +754,28 @@ def rule_G(ctx):
                                                  {'history': ['flat track (constant z)' if (j == 0) == first_flat and j < 2 else 'track with varying z' for j in range(3)],
                                                   'call': k_ + 1, 'kernel': [1.0, 2.0, 1.0], 'z': gz, 'expected z': wz, 'x': gx, 'expected x': wx}))
                 break
+    # a height missing at the first fix only (NaN), heights elsewhere: z is still smoothed over its valid samples
+    for dims in (None, ['x', 'y', 'z'], ['z']):
+        t_ = track_of(xs)
+        t_.fields['_Track__POINTS'][0].position.setZ(NANV)
+        zin = [NANV] + zs_[1:]
+        n_cases += 1
+        try:
+            if dims is None:
+                fn['__name__']('filter_seq')(t_, [1.0, 2.0, 1.0])
+            else:
+                fn['__name__']('filter_seq')(t_, [1.0, 2.0, 1.0], list(dims))
+        except orders.Unsupported as ex:
+            raise shape_error('filter_seq not interpretable: %s' % ex, fs.loc())
+        except (ZeroDivisionError, IndexError, KeyError, TypeError, AttributeError, ValueError, orders.Raised) as ex:
+            found.setdefault('seq-fails', (fs, 'filter_seq does not fail', {'track': 'height missing (NaN) at the first fix', 'exception': '%s: %s' % (type(ex).__name__, str(ex)[:160])}))
+            continue
+        wz = [zin[i] if (i < 1 or i >= len(xs) - 1) else mean_window(zin, [0.25, 0.5, 0.25], i, True) for i in range(len(xs))]
+        gz = [o.position.getZ() for o in t_.fields['_Track__POINTS']]
+        if not all(close(a, b) for a, b in zip(gz, wz)):
+            found.setdefault('seq-nan', (fs, 'filter_seq smooths the heights over their valid samples when the height of the first fix is missing (NaN)',
+                                         {'dimensions': dims or 'default', 'kernel': [1.0, 2.0, 1.0], 'z before': [None if v != v else v for v in zin], 'z after': [None if (isinstance(v, float) and v != v) else v for v in gz],
+                                          'expected': [None if v != v else v for v in wz]}))
     # the same signals held as numpy scalars (columns taken from numpy arrays): NaN samples are still left out of the mean
     for kname, kind, tol in (('numpy.float64 scalar', npstub.NpF64, 1e-9), ('numpy.float32 scalar', npstub.NpF32, 1e-5)):
         for sname in ('with isolated NaN', 'NaN first and last'):
@@ -782,7 +804,7 @@ def rule_G(ctx):
         ctx.ok('C15.G', ff, 'Filter: weighted mean over the valid samples of the window, boundary copy, input untouched (%d signal/kernel configurations)' % n_cases, node=ff.node)
     if not any(k in found for k in ('window', 'window-fails')):
         ctx.ok('C15.G', fk, 'sliding windows of %d built-in kernels: odd, symmetric, non-negative, sum 1' % len(kernels), node=fk.node)
-    if not any(k in found for k in ('seq', 'seq-fails', 'seq-history')):
+    if not any(k in found for k in ('seq', 'seq-fails', 'seq-history', 'seq-nan')):
         ctx.ok('C15.G', fs, 'filter_seq writes the filtered coordinates into the track it is given', node=fs.node)
     ctx.extra['C15.G cases'] = n_cases
 
